@@ -64,6 +64,14 @@ def gen_trace_program(rng):
     def emit(l):
         lines.append(l)
         return len(lines)
+    if rng.chance(1, 3):
+        # history: an earlier exception that was thrown in another function and caught must not disturb later reports
+        emit("fn pre_thrower() {")
+        emit("    throw \"earlier\";")
+        emit("}")
+        emit("try { pre_thrower(); } catch pre_e { var seen = pre_e; }")
+        if rng.chance(1, 2):
+            emit("try { throw \"same chunk\"; } catch pre_e2 { var seen2 = pre_e2; }")
     callee = None    # expression that calls the previous (inner) callable
     fail_line = None
     use_module = rng.chance(1, 5) and "host_raise" not in stmt
